@@ -50,6 +50,14 @@ let handle op args = match op, args with
        (match targets image_opener_keys k (s_of name) with
         | Ok l -> "ok " ^ str k.kname ^ " " ^ String.concat ";" (List.map (fun ((m, f), o) -> str m ^ "=" ^ str f ^ ":" ^ idx o) l)
         | Err e -> "ok " ^ str k.kname ^ " err"))
+  | "mc", [c; h] ->
+    let k = klass_of c in
+    "ok " ^ string_of_bool (mc k.skind (features cifti_intents (bytes_of_hex h)))
+  | "wsig", [c; h] -> "ok " ^ string_of_bool (writer_sig (klass_of c) (features cifti_intents (bytes_of_hex h)))
+  | "ldh", [name; h] ->
+    (match load_by_header all_classes cifti_intents (s_of name) (bytes_of_hex h) with
+     | Ok o -> "ok " ^ idx o
+     | Err e -> "err " ^ string_of_terr e)
   | "lower", [s] -> "ok " ^ str (lower (s_of s))
   | "upper", [s] -> "ok " ^ str (upper (s_of s))
   | _ -> "err driver:badop"
